@@ -58,7 +58,7 @@ def pregen(ck):
 # ---- end: translator-based tie
 
 CLASSES = {'UpdateBlockWriteError', 'UpdateFFBlockWriteError', 'UpdateFFNonTopLevelSignalError', 'InvalidConnectionError',
-           'MultiWriterError', 'NoWriterError', 'SignalTypeError'}
+           'MultiWriterError', 'NoWriterError', 'SignalTypeError', 'InvalidFuncCallError'}
 
 def parse_reply(rep):
   return {x[0]: x[1:] for x in leanio.parse_sexp(rep)}
